@@ -4,11 +4,15 @@ check("C08", "model_checking",
       "(G: generic / structured nominal types - generic blobs and enums, std Maybe, blobs with fn-typed and `*` fields, blobs over generics - "
       "written bare, applied, partially applied and nested in list / tuple / Opt / Box annotations at every site kind and context, with a second "
       "use of the same type at another instantiation before or after it, in the same or another function; S: generic function signatures called "
-      "at two instantiations; F: variable definitions whose value is function-typed but not a literal, annotated fn / pu). The harness compiles "
+      "at two instantiations; F: variable definitions whose value is function-typed but not a literal, annotated fn / pu; L: annotations naming types declared later "
+      "in the file, in every order of {annotated definition, the type, another type mentioning it through tuple / list / fn / generic-argument "
+      "positions}, with a call that needs the precise type; M: qualified type names - namespace, alias, chains through other files and folders, "
+      "re-exports, from-imports, rooted paths, generic qualified types - at every site kind in main and in imported files of in-memory "
+      "multi-file projects). The harness compiles "
       "every erasure variant; MC_AnnotVal validates the records: TLC asserts that each record covers the spec's mask universe (every subset of the "
       "program-specific sites when there are <= 8/6 - always for the families -, plus all-on, all-off, every single site on/off and every prefix "
       "erased over all sites) and that all variants are accepted with one and the same Lua digest. Bounded: quick = 600 P + 700 G + all 136 S + "
-      "134 F programs (seeded), thorough = all ~15.6k + 8.9k programs.",
+      "134 F + 300 L + 300 M programs (seeded), thorough = all ~15.6k + 15k programs.",
       "Trusted: TLC, SyltAnnot's definition of a site (variable definitions whose value is not a function literal, parameters of non-function "
       "type that are not needed to type a call made through them, return types of value-returning functions), the well-typedness by construction "
       "of the generated programs (the all-annotated variant being accepted is part of what is checked), the printer (its site count is "
